@@ -298,6 +298,62 @@ Example c17_subscribe_close_race_nonvacuous :
                                        [(2%N, [(0%N, [a; SLASH; GT])]); (3%N, [])]] ++ tail) = false.
 Proof. vm_compute. repeat split; reflexivity. Qed.
 
+(* delivery does not depend on the publisher's stream staying alive.  [EPubMid sid space topic claim relayed wf] is
+   the schedule "the frame has been read; the publisher's stream context is cancelled, the pool drops the stream
+   and its close hook runs at the first lookup the handler makes on the publisher's behalf (CheckMember /
+   IsResponsibleNode) — or right after the handler if it makes none"; the handler then carries on with the frame.
+   After ANY history such a Publish is written to every OTHER stream sigma IFF the ingress checks pass (evaluated on
+   the state in which the frame was read) AND sigma is pooled AND a registered pattern of sigma matches; one copy per
+   stream; forwarded iff accepted and direct; afterwards exactly the publisher's interest and pool entry are gone.
+   [EPubMid] is an event like any other, so c17_model_satisfies_spec_svc (whose predicate accepts for such an event
+   only the outcome of the same Publish handled just after or just before the publisher left the pool),
+   c17_views_agree, c17_delivery_exact and c17_teardown_* cover histories containing it. *)
+Theorem c17_publish_survives_publisher_loss : forall c evs sid acct space topic claim relayed wf, fresh_opens evs ->
+  let s := svc_exec c svc_init evs in
+  let s' := svc_exec c svc_init (evs ++ [EPubMid sid space topic claim relayed wf]) in
+  nassoc sid (sv_conns s) = Some acct ->
+  (exists delivered status forwarded,
+    last (svc_run c svc_init (evs ++ [EPubMid sid space topic claim relayed wf])) ONone
+      = OPub delivered status forwarded
+    /\ NoDup delivered
+    /\ (forall sigma, sigma <> sid ->
+          (In sigma delivered <->
+             (ingress c s sid acct space topic claim relayed wf = true
+              /\ in_pool s sigma = true
+              /\ exists p, has s sigma space p = true /\ spec_matches p topic = true)))
+    /\ forwarded = (ingress c s sid acct space topic claim relayed wf && negb relayed))
+  /\ (forall sigma sp0 q, has s' sigma sp0 q = has s sigma sp0 q && negb (N.eqb sigma sid))
+  /\ (forall x, in_pool s' x = in_pool s x && negb (N.eqb x sid)).
+Proof. exact publish_survives_publisher_loss. Qed.
+Print Assumptions c17_publish_survives_publisher_loss.
+
+(* non-vacuity: streams 1, 2 and the publisher 3 itself hold a/>; stream 3 publishes on a/b and goes away while the
+   frame is handled: streams 1 and 2 get the message, it is forwarded, stream 3 is gone from all three views; a relayed
+   publish of node stream 4 that goes away likewise reaches 1 and 2.  The predicate REJECTS "delivered to nobody",
+   "delivered to a prefix of the matching streams" and "not forwarded". *)
+Example c17_publish_survives_publisher_loss_nonvacuous :
+  let a := 97%N in let b := 98%N in
+  let c := mkCfg 100 1000 1000 [0%N] [4%N] [[120%N]; [121%N]; [122%N]] in
+  let evs := [EOpen 1 0; EOpen 2 1; EOpen 3 2; EOpen 4 2; ESetMember 0 0 true; ESetMember 0 1 true; ESetMember 0 2 true;
+              ESub 1 0 [[a; SLASH; GT]]; ESub 2 0 [[a; SLASH; GT]]; ESub 3 0 [[a; SLASH; GT]];
+              EPubMid 3 0 [a; SLASH; b] 3 false true; ESnap; EPubMid 4 0 [a; SLASH; b] 3 true true] in
+  let pre := [ONone; ONone; ONone; ONone; ONone; ONone; ONone; ONone; ONone; ONone] in
+  let snap := OSnap [(0%N, (1%N, false))]
+                    [(1%N, (0%N, 1%N, [(0%N, [[a; SLASH; GT]])])); (2%N, (1%N, 1%N, [(0%N, [[a; SLASH; GT]])]))]
+                    [(1%N, [(0%N, [a; SLASH; GT])]); (2%N, [(0%N, [a; SLASH; GT])]); (4%N, [])] in
+  fresh_opens evs
+  /\ svc_run c svc_init evs = pre ++ [OPub [1%N; 2%N] None true; snap; OPub [1%N; 2%N] None false]
+  /\ spec_C17_svc c evs (svc_run c svc_init evs) = true
+  /\ spec_C17_svc c evs (pre ++ [OPub [1%N; 2%N; 3%N] None true; snap; OPub [1%N; 2%N] None false]) = true
+  /\ spec_C17_svc c evs (pre ++ [OPub [] None true; snap; OPub [1%N; 2%N] None false]) = false
+  /\ spec_C17_svc c evs (pre ++ [OPub [1%N] None true; snap; OPub [1%N; 2%N] None false]) = false
+  /\ spec_C17_svc c evs (pre ++ [OPub [1%N; 2%N] None false; snap; OPub [1%N; 2%N] None false]) = false
+  /\ spec_C17_svc c evs (pre ++ [OPub [1%N; 2%N] None true; snap; OPub [] None false]) = false.
+Proof.
+  cbv zeta. split; [|vm_compute; repeat split; reflexivity].
+  unfold fresh_opens. cbn [opens]. repeat constructor; cbn [In]; intros H; repeat destruct H as [H|H]; try discriminate; exact H.
+Qed.
+
 (* every other event only removes interest, and removes what it is meant to remove ([withdraws]:
    Unsubscribe of the pattern / of all, Close or Break of the stream, Evict of the stream's account,
    Revalidate while the account is not a member, CloseSpace) *)
